@@ -984,6 +984,25 @@ func replay(run *ev.Run) {
 	v := judge(f.Replay.Input)
 	fmt.Printf("replay input=%q -> kind=%q %s\n", f.Replay.Input, v.kind, v.detail)
 	if v.kind != "" && v.kind != "skip" {
+		// tokenise greedily (the alphabet is a prefix code) to show the class this input minimises to
+		var toks []uint8
+		rest := f.Replay.Input
+		for rest != "" {
+			hit := false
+			for i, a := range alphabet {
+				if strings.HasPrefix(rest, a) {
+					toks, rest, hit = append(toks, uint8(i)), rest[len(a):], true
+					break
+				}
+			}
+			if !hit {
+				toks = nil
+				break
+			}
+		}
+		if toks != nil {
+			fmt.Printf("replay class=%q\n", v.kind+"|"+showToks(minimise(toks, v.kind)))
+		}
 		os.Exit(1)
 	}
 	os.Exit(0)
